@@ -10,7 +10,7 @@ func (e *BinaryOpExpr) Check(ctx *CheckCtx) error {
 	e.tryRewriteExpr(ctx)
 	// A name may now refer to the field this expression defines (select a + 1 as a):
 	// refuse it before the type rules below recurse through the reference forever
-	if ref := findFieldReferenceCycle(e, map[string]bool{}); ref != nil {
+	if ref := findFieldReferenceCycle(e, map[string]bool{}, map[string]bool{}); ref != nil {
 		return NewSyntaxError(ref.GetPos(), "Field %s is defined in terms of itself", ref.Name.Data)
 	}
 	switch e.Op {
